@@ -339,11 +339,13 @@ pub fn run(tier: Tier, seed: u64) -> i32 {
         let terms = gen_terms(&uni, max_depth);
         let b = Bench::new(&tag, uni.clone(), contexts());
         let mut all: Vec<Lhs> = Vec::new();
+        let mut level: Vec<usize> = Vec::new();
         for d in 0..=max_depth {
             // at the deepest level keep every k-th term in quick mode to bound the run
             all.extend(terms.bytes[d].iter().cloned());
             all.extend(terms.arr_bytes[d].iter().cloned());
             all.extend(terms.ints[d].iter().cloned());
+            level.resize(all.len(), d);
         }
         run.count("terms", all.len() as u64);
         par_for(all.len(), ncpu(), |k| {
@@ -378,7 +380,10 @@ pub fn run(tier: Tier, seed: u64) -> i32 {
                     filters.push(Expr::cmp(one, CmpOp::Contains, Rhs::Lit(Lit::str(b"a"))));
                     // a mapped call over the result of this call, as a value (its static type,
                     // Array(Int), differs from what it maps over: the tag of an absence shows it)
-                    check_value(&run, ID, &b, &Lhs::call("len", vec![Arg::Lhs(each.clone())]));
+                    // (for terms up to nesting 2: the third level only repeats the shapes)
+                    if level[k] <= 2 {
+                        check_value(&run, ID, &b, &Lhs::call("len", vec![Arg::Lhs(each.clone())]));
+                    }
                     // ... and under a quantifier
                     filters.push(Expr::any(QArg::Logical(Expr::cmp(
                         Lhs::callp("len", vec![Arg::Lhs(each)], vec![Idx::Each]),
@@ -398,6 +403,38 @@ pub fn run(tier: Tier, seed: u64) -> i32 {
                 run.sample(16, || json!({"universe": b.tag, "value_expression": render_value(l), "static_type": ty.short()}));
             }
         });
+    }
+    // non-mapped arguments that are calls over a literal *and* a field (they look constant to a
+    // careless analysis): one compiled filter executed on every context in turn
+    for nil_ne in [true, false] {
+        let (tag, uni) = unis::containers(nil_ne);
+        let b = Bench::new(&tag, uni.clone(), contexts());
+        let s_ = || Arg::Lhs(Lhs::field("s"));
+        let mixed: Vec<Lhs> = vec![
+            Lhs::call("cat2", vec![s_(), Arg::Lit(Lit::str(b"L"))]),
+            Lhs::call("opt", vec![s_(), Arg::Lit(Lit::int(3))]),
+            Lhs::call("opt", vec![s_(), Arg::Lit(Lit::int(3)), Arg::Lit(Lit::str(b"q"))]),
+            Lhs::call("concat", vec![Arg::Lit(Lit::str(b"-")), s_()]),
+            Lhs::call("concat", vec![s_(), Arg::Lit(Lit::str(b"-")), s_()]),
+            Lhs::call("cat2", vec![Arg::Lhs(Lhs::call("idb", vec![s_()])), Arg::Lit(Lit::str(b"L"))]),
+        ];
+        for extra in &mixed {
+            for outer in ["cat2", "concat"] {
+                for mapped in ["xs", "ms"] {
+                    let l = Lhs::call(outer, vec![Arg::Lhs(Lhs::fieldp(mapped, vec![Idx::Each])), Arg::Lhs(extra.clone())]);
+                    if value_ty(&b.uni, &l).is_err() {
+                        continue;
+                    }
+                    check_value(&run, ID, &b, &l);
+                    run.count("mixed_extra_argument_terms", 1);
+                    let mut each = l.clone();
+                    each.path.push(Idx::Each);
+                    for lit in [&b"a+a+L"[..], b"a-a", b"aa-a", b"a+a|3|d"] {
+                        note(check_filter(&run, ID, &b, &Expr::any(QArg::Logical(Expr::cmp(each.clone(), CmpOp::Eq, Rhs::Lit(Lit::str(lit)))))));
+                    }
+                }
+            }
+        }
     }
     run.set("programs", json!(programs.load(Ordering::Relaxed)));
     run.set("bounds", json!({"max_call_nesting": max_depth}));
